@@ -39,6 +39,12 @@ var controlsSummary map[string]any
 func runPositiveControls() {
 	dir := filepath.Join(verifDir(), "checker", "testdata", "fixture")
 	if _, err := os.Stat(dir); err != nil {
+		// evidence may be redirected (VERIF_DIR) while the checker sources stay next to the binary
+		if exe, e2 := os.Executable(); e2 == nil {
+			dir = filepath.Join(filepath.Dir(filepath.Dir(exe)), "checker", "testdata", "fixture")
+		}
+	}
+	if _, err := os.Stat(dir); err != nil {
 		// a run from a snapshot without the fixture must not pass silently
 		broken("positive-control fixture missing at %s", dir)
 	}
